@@ -184,12 +184,15 @@ func (loader *Loader) loadFromDataWithPathInternal(data []byte, location *url.UR
 	loader.visitedDocuments[uri] = doc
 
 	if err := unmarshal(data, doc, IncludeOrigin); err != nil {
+		// nothing was loaded: a later load of this location starts afresh
+		delete(loader.visitedDocuments, uri)
 		return nil, err
 	}
 
 	doc.url = copyURI(location)
 
 	if err := loader.ResolveRefsIn(doc, location); err != nil {
+		delete(loader.visitedDocuments, uri)
 		return nil, err
 	}
 
